@@ -1,0 +1,28 @@
+//go:build verif
+
+// Machine-checked contracts for package router_info (comment-only file; never
+// compiled into the library).  Read by /verif/engine (gvc).
+//
+// Composite.  The number of router addresses is a wire byte (0..255): the
+// address loops are explored up to a bound and reported as bounded.
+
+package router_info
+
+//@ import "github.com/go-i2p/common/router_identity"
+//@ import "github.com/go-i2p/common/key_certificate"
+
+//@ loop parseRouterAddresses 0: bounded 1
+//@ loop hasCriticalMappingErrors 0: bounded 3
+//@ loop logCriticalMappingErrors 0: bounded 3
+//@ loop serializeRouterInfoFields 0: concrete 4
+//@ loop RouterInfo.serializeWithoutSignature 0: concrete 4
+
+// C09: the RouterIdentity inside an accepted RouterInfo obeys the key-type policy.
+//@ lemma C09_ReadRouterInfo(data []byte) {
+//@   ri, _, err := ReadRouterInfo(data)
+//@   if err == nil {
+//@     id := ri.RouterIdentity()
+//@     assert(id != nil && id.KeysAndCert != nil)
+//@     assert(router_identity.PermittedRI(key_certificate.SigType(id.KeysAndCert.KeyCertificate), key_certificate.CryptoType(id.KeysAndCert.KeyCertificate)))
+//@   }
+//@ }
